@@ -32,10 +32,10 @@ ALL = SQF + CFG + PP
 CHAIN = dict([(f, "sqf") for f in SQF] + [(f, "cfg") for f in CFG] + [(f, "pp") for f in PP])
 ORDER = {f: n for n, f in enumerate(ALL)}
 CLASSES = ["recursive-macro", "recursive-include", "deep-nesting", "long-run", "comment-at-eof", "unterminated-string", "hash-line",
-           "define-empty-param", "stray-directive", "macro-call-cut", "other"]
+           "define-empty-param", "eval-macro", "stray-directive", "macro-call-cut", "other"]
 SATURATE = 10        # crashes of one (chain, construct class) after which the general exploration steers around the class
 WITNESSES = 20       # runs per (chain, named deviation predicted by Lex.tla) among the enumerated inputs
-BULK_BUDGET_MS = 400
+BULK_BUDGET_MS = 1000
 CONFIRM_BUDGET_MS = 6000
 BULK_ENV = {"ASAN_OPTIONS": "detect_leaks=0:abort_on_error=1:handle_abort=0:symbolize=0",
             "UBSAN_OPTIONS": "halt_on_error=1:abort_on_error=1:print_stacktrace=0:symbolize=0"}
@@ -95,23 +95,33 @@ def lexer_class(text):
     return "other"
 
 
+TAGS = ("recursive-macro", "recursive-include", "deep-nesting", "long-run", "stray-directive", "macro-call-cut")
+
+
 def construct_class(case, chain):
+    memo = case.setdefault("_cls", {})
+    if chain not in memo:
+        memo[chain] = construct_class_(case, chain)
+    return memo[chain]
+
+
+def construct_class_(case, chain):
     tag = case.get("tag")
-    if tag in ("recursive-macro", "recursive-include", "deep-nesting", "long-run"):
-        return tag
     text = case["text"]
     if chain == "pp":
+        if tag in ("recursive-macro", "recursive-include"):
+            return tag
         if _RE_DEF_EMPTY.search(text) or _RE_DEF_EMPTY2.search(text):
             return "define-empty-param"
         if _RE_SELF.search(text):
             return "recursive-macro"
-        if tag in ("stray-directive", "macro-call-cut"):
-            return tag
-        return "other"
+        if "__EVAL" in text or "__EXEC" in text:
+            return "eval-macro"
+        return tag if tag in TAGS else "other"
     c = lexer_class(text)
     if c != "other":
         return c
-    return tag if tag in ("stray-directive", "macro-call-cut") else "other"
+    return tag if tag in TAGS else "other"
 
 
 # ------------------------------------------------------------------------------------------------
@@ -127,10 +137,10 @@ def mc_cfg(name, depth, emit, dev=None, invs=None, nnames=2):
 
 
 def mk(cid, text, which, kind="text", tag=None, **kw):
-    # the watchdog grows with the input (3 ms per byte beyond 1000): algorithms that are merely quadratic on 4-40 KB inputs
-    # are the business of TimeProportional, not of Terminates
+    # the watchdog grows with the input (3 ms per byte beyond 1000, 60 ms per byte of a deeply nested input - the sanitizer
+    # build needs seconds for depth 600): algorithms that are merely quadratic are the business of TimeProportional, not of Terminates
     c = {"id": cid, "text": text, "which": sorted(which, key=lambda f: ORDER[f]), "kind": kind, "ops": "basic",
-         "budget_ms": BULK_BUDGET_MS + 3 * max(0, len(text) - 1000)}
+         "budget_ms": BULK_BUDGET_MS + 3 * max(0, len(text) - 1000) + (60 * len(text) if tag == "deep-nesting" else 0)}
     if tag:
         c["tag"] = tag
     c.update(kw)
@@ -146,14 +156,17 @@ def sym_cases(prints, quick, rng):
             continue
         text = "".join(SYM[s] for s in o["syms"])
         cid = "s%d" % n
-        out.append(mk(cid, text, ALL, kind="sym", syms=o["syms"], toks=True, pred={"sqf": sorted(o["ds"]), "cfg": sorted(o["dc"])}))
         L = len(o["syms"])
+        # the operators are thin wrappers of the parsers: in the quick tier they get a quarter of the 3-symbol strings
+        which = ALL if (not quick or L <= 2 or rng.random() < 0.25) else [f for f in ALL if f not in ("compile", "preprocess__", "configparse__")]
+        out.append(mk(cid, text, which, kind="sym", syms=o["syms"], toks=True, pred={"sqf": sorted(o["ds"]) + ([o["os"]] if o["ds"] else []), "cfg": sorted(o["dc"]) + ([o["oc"]] if o["dc"] else [])}))
         # the same bytes inside a config value, and at the end of a heap-allocated buffer of the parsers
         # (strings < 16 bytes live inside the std::string object, where the sanitizer sees no over-read)
-        if L <= 2 or rng.random() < (0.12 if quick else 1.0):
+        if L <= 2 or rng.random() < (0.08 if quick else 0.1):
             var.append(mk(cid + "w", "class A { x = " + text + "; };", CFG, tag="wrapped", origin="sym-in-config-value"))
             var.append(mk(cid + "v", "g = [" + text + "];", SQF, tag="wrapped", origin="sym-in-sqf-array"))
             var.append(mk(cid + "p", " " * 17 + text, ["sqfparse", "cfgparse", "pp"], tag="padded", origin="sym-padded"))
+    out.sort(key=lambda c: len(c["syms"]))               # the witnesses of a predicted deviation are the shortest inputs
     return out, var
 
 
@@ -325,22 +338,23 @@ def scale_families(quick):
     """families of inputs of growing size for TimeProportional: (family, front end, f(n) -> text, n)"""
     n = 500 if quick else 2000
     m = 5000 if quick else 20000
+    h = 2500 if quick else 20000          # families whose members are slow already
     fams = [
         ("nested-array", "sqfparse", lambda k: "a = " + "[" * k + "1" + "]" * k, n),
         ("nested-code", "sqfparse", lambda k: "a = " + "{" * k + "1" + "}" * k, n),
         ("nested-parens", "sqfparse", lambda k: "a = " + "(" * k + "1" + ")" * k, n),
         ("nested-array", "sqftok", lambda k: "a = " + "[" * k + "1" + "]" * k, n),
-        ("sum", "sqfparse", lambda k: "a = 1" + " + 1" * k, m),
-        ("statements", "sqfparse", lambda k: "a = 1;" * k, m),
+        ("sum", "sqfparse", lambda k: "a = 1" + " + 1" * k, h),
+        ("statements", "sqfparse", lambda k: "a = 1;" * k, h),
         ("array-elements", "sqfparse", lambda k: "a = [" + "1," * k + "1]", m),
-        ("statements", "compile", lambda k: "a = 1;" * k, m),
+        ("statements", "compile", lambda k: "a = 1;" * k, h),
         ("string", "sqftok", lambda k: '"' + "a" * (4 * k) + '"', m),
         ("nested-array", "cfgparse", lambda k: "class A { x[] = " + "{" * k + "1" + "}" * k + "; };", n),
         ("nested-class", "cfgparse", lambda k: "".join("class C%d {" % i for i in range(k)) + "};" * k, n),
         ("value-tokens", "cfgparse", lambda k: "class A { x = " + "a " * k + "; };", m),
         ("array-elements", "cfgparse", lambda k: "class A { x[] = {" + "1," * k + "1}; };", m),
-        ("fields", "cfgparse", lambda k: "class A {" + "x = 1;" * k + "};", m),
-        ("fields", "configparse__", lambda k: "class A {" + "x = 1;" * k + "};", m),
+        ("fields", "cfgparse", lambda k: "class A {" + "x = 1;" * k + "};", h),
+        ("fields", "configparse__", lambda k: "class A {" + "x = 1;" * k + "};", h),
         ("value-tokens", "cfgtok", lambda k: "class A { x = " + "a " * k + "; };", m),
         ("words", "pp", lambda k: "a " * k, m),
         ("lines", "pp", lambda k: "a = 1;\n" * k, m),
@@ -471,6 +485,7 @@ def run(rep, tier, seed, replay):
         "operators costs 20 ms); confirmations, the valid corpus inputs and a 4% sample use the full set the CLI registers",
         "a case whose tokenizer run does not come back is not fed to the parser / operator built on that tokenizer; a failure seen in several front ends of one chain "
         "(sqftok < sqfparse < compile, cfgtok < cfgparse < configparse__, pp < preprocess__) is keyed by the innermost one",
+        "in the quick tier the operators compile / preprocess__ / configparse__ get the enumerated strings <= 2 symbols and a quarter of the longer ones",
         "steering (DESIGN.md 4): among the ENUMERATED inputs a chain predicted by Lex.tla (CodeDevs) to take a named deviation is run on the %d shortest inputs per deviation only, "
         "the others are run too as soon as fewer than half of these witnesses fail; among the sampled inputs a chain is not given a construct class any more after %d failures "
         "of that (chain, class)" % (WITNESSES, SATURATE),
@@ -526,7 +541,7 @@ def run(rep, tier, seed, replay):
         # ---- 2. corpus: prefixes and single-token mutations, special inputs
         sampled = list(variants)
         seen = set()
-        per_op = 4 if quick else None
+        per_op = 3 if quick else None
         n = 0
         for name, text, which in corpus(rng, quick):
             sampled.append(mk("b%d" % n, text, which, tag="valid", origin=name, ops="full"))
@@ -606,7 +621,13 @@ def run(rep, tier, seed, replay):
                     withheld.append((gk, c, held))
             if which:
                 todo.append((c["id"], c, which))
-        execs = drive(todo, wdir, "c10enum", env=BULK_ENV)
+        execs = []
+        for b0 in range(0, len(todo), 30000):
+            part = drive(todo[b0:b0 + 30000], wdir, "c10enum%d" % b0, env=BULK_ENV)
+            execs += part
+            if b0 + 30000 < len(todo):                   # (the last slice is judged below, together with the supplementary runs)
+                judge(part, "c10enum%d" % b0)
+        last = len(execs) - len(part) if todo else 0
         phase("enumerated inputs driven: %d executions, %d front-end runs withheld as predicted deviations" % (len(execs), sum(len(h) for _, _, h in withheld)))
         failed = {}
         for xid, c, evs in execs:
@@ -617,14 +638,19 @@ def run(rep, tier, seed, replay):
         extra = [("%s+%s" % (c["id"], gk[0]), c, held) for gk, c, held in withheld if gk in stale]
         if extra:
             rep.notes.append("prediction of Lex.tla no longer holds for %s: the %d withheld runs were executed" % (sorted(stale), len(extra)))
-            execs += drive(extra, wdir, "c10enum2", env=BULK_ENV)
+            for b0 in range(0, len(extra), 30000):
+                part = drive(extra[b0:b0 + 30000], wdir, "c10enumx%d" % b0, env=BULK_ENV)
+                execs += part
+                if len(execs) - last > 30000:
+                    judge(execs[last:], "c10enumx%d" % b0)
+                    last = len(execs)
         rep.extra["withheld_predicted_front_end_runs"] = sum(len(h) for gk, _, h in withheld if gk not in stale)
         rep.extra["witness_groups"] = {"%s/%s" % gk: len(ids) for gk, ids in sorted(groups.items())}
         for xid, c, evs in execs[:1] + execs[700:702]:
             rep.samples.append({"input": show(c["text"], 160), "origin": c["kind"],
                                 "observed": [{k: e[k] for k in ("fe", "ok", "nerr", "ntok", "same", "fin") if k in e} if e["e"] == "Obs" else {"crash": e.get("why")}
                                              for e in evs if e["e"] in ("Obs", "Crash")]})
-        judge(execs, "c10enum")
+        judge(execs[last:], "c10enum")
         phase("enumerated inputs validated: %d rejections so far" % len(bad))
 
         # ---- 3c. sampled inputs, batched; a (chain, class) that failed SATURATE times is steered around
@@ -716,70 +742,94 @@ def run(rep, tier, seed, replay):
         groups.setdefault((b["why"], ch, construct_class(c, ch)), []).append(b)
     if len(groups) > 40:
         raise vlib.MachineryError("%d distinct finding keys in one run - something systematic is wrong with the machinery: %s" % (len(groups), sorted(groups)[:12]))
+    # candidates: per key the shortest inputs of the innermost front end; all of them are re-run in ONE parallel batch
+    plan = []
     for (why, ch, cls), bs in sorted(groups.items()):
         fes = sorted({b["op"] for b in bs}, key=lambda f: ORDER[f])
         fe = fes[0]
         key = "C10/%s/%s/%s" % (why, fe, cls)
         cands = sorted([b for b in bs if b["op"] == fe], key=lambda b: (len(exec_index[b["id"]][0]["text"]), exec_index[b["id"]][0]["text"]))
-        confirmed = None
-        for b in cands[:3]:
+        plan.append({"key": key, "why": why, "fe": fe, "fes": fes, "cls": cls, "bs": bs, "cands": cands[:8]})
+    todo, pairs = [], {}
+    for pn, pl in enumerate(plan):
+        for cn, b in enumerate(pl["cands"]):
             c = dict(exec_index[b["id"]][0])
-            if why == "TimeProportional":
-                # re-measure the pair
-                k = c["scale"]["id"]
-                pair = [x for x in scale_todo if "t%s_" % k[5:] == x["id"][:len(k[5:]) + 2]]
-                ex2 = drive([(x["id"], x, x["which"]) for x in pair], wdir, "c10confirm", kind="rel")
-                o2 = {x[1]["id"]: e for x in ex2 for e in x[2] if e["e"] == "Obs"}
-                if len(o2) != 2:
-                    continue
-                sc = dict(c["scale"], ms1=o2[pair[0]["id"]]["ms"], ms2=o2[pair[1]["id"]]["ms"])
-                ex2 = [("confirm", c, [sc])]
-                b2, _, _ = validate(ex2, wdir, "c10confirm")
-                if not b2:
-                    rep.notes.append("rejection %s did not repeat on re-measurement" % key)
-                    continue
-                confirmed = (b, c, b2, ex2, " %d bytes in %d ms, %d bytes in %d ms (normal build, single run)" % (sc["n1"], sc["ms1"], sc["n2"], sc["ms2"]))
-                break
-            c.update({"id": "confirm", "which": [fe], "budget_ms": max(CONFIRM_BUDGET_MS, 4 * c.get("budget_ms", 0)), "ops": "full"})
-            stack(big)
-            try:
-                ex2 = drive([("confirm", c, [fe])], wdir, "c10confirm")
-                b2, _, _ = validate(ex2, wdir, "c10confirm")
-            finally:
-                stack(default_stack)
-            b2 = [x for x in b2 if x["why"] == why]
-            if not b2:
-                rep.notes.append("rejection %s of %s did not repeat on a single re-run (%s)" % (key, b["id"], show(c["text"], 60)))
+            xid = "cf%d_%d" % (pn, cn)
+            if pl["why"] == "TimeProportional":
+                k = int(c["scale"]["id"][5:])
+                pairs[xid] = (k, c)
+                for x in scale_todo:
+                    if x.get("famidx") == k:
+                        todo.append(("%s_%s" % (xid, x["id"]), "rel", x, x["which"]))
                 continue
-            note = ""
-            if why == "NoCrash":
-                # which kind of sanitizer report; stack overflows must also happen in the normal build with the default stack
-                stack(big)
-                try:
-                    vlib.run_driver("front", [wire(c)], wdir, kind="asan", timeout_s=60, jobs=1, tag="c10kind")
-                finally:
-                    stack(default_stack)
-                errkind = asan_kind(os.path.join(wdir, "c10kind.0.out.ndjson.stderr"))
-                evr = vlib.run_driver("front", [wire(c)], wdir, kind="rel", timeout_s=60, jobs=1, tag="c10rel")
-                relcrash = [e for e in evr if e["e"] == "Crash"]
-                note = " sanitizer: %s; normal build: %s" % (errkind or "?", relcrash[0].get("why") if relcrash else "no crash")
-                if "stack-overflow" in errkind and not relcrash:
-                    rep.notes.append("%s: stack overflow only in the sanitizer build (%s) - not counted" % (key, show(c["text"], 60)))
-                    continue
-            confirmed = (b, c, b2, ex2, note)
-            break
-        if not confirmed:
+            c.update({"id": xid, "which": [pl["fe"]], "budget_ms": max(CONFIRM_BUDGET_MS, 2 * c.get("budget_ms", 0)), "ops": "full"})
+            todo.append((xid, "asan", c, [pl["fe"]]))
+    confirmed = {}
+    if todo:
+        stack(big)
+        try:
+            ex_asan = drive([(x, c, w) for x, k, c, w in todo if k == "asan"], wdir, "c10confirm")
+        finally:
+            stack(default_stack)
+        ex_rel = drive([(x, c, w) for x, k, c, w in todo if k == "rel"], wdir, "c10confirmrel", kind="rel")
+        ex2 = list(ex_asan)
+        for xid, (k, c) in pairs.items():
+            o2 = {x[0]: e for x in ex_rel for e in x[2] if e["e"] == "Obs" and x[0].startswith(xid + "_")}
+            if len(o2) == 2:
+                # load on the machine only ever adds time: the verdict is taken on the faster of the two measurements of each member
+                sc = dict(c["scale"], id=xid, ms1=min(c["scale"]["ms1"], o2["%s_t%d_0" % (xid, k)]["ms"]), ms2=min(c["scale"]["ms2"], o2["%s_t%d_1" % (xid, k)]["ms"]))
+                ex2.append((xid, c, [sc]))
+        b2all, _, _ = validate(ex2, wdir, "c10confirm") if ex2 else ([], None, None)
+        evs_of = {x[0]: x for x in ex2}
+        for pn, pl in enumerate(plan):
+            for cn, b in enumerate(pl["cands"]):
+                xid = "cf%d_%d" % (pn, cn)
+                b2 = [x for x in b2all if x["id"] == xid and x["why"] == pl["why"]]
+                if b2 and xid in evs_of:
+                    confirmed.setdefault(pn, (b, evs_of[xid][1], b2, evs_of[xid][2]))
+            if pn not in confirmed:
+                rep.notes.append("rejection %s did not repeat on a single re-run (%d candidates, e.g. %s)" % (
+                    pl["key"], len(pl["cands"]), show(exec_index[pl["cands"][0]["id"]][0]["text"], 60)))
+    phase("re-runs done: %d of %d keys repeat" % (len(confirmed), len(plan)))
+    # sanitizer report kind and behaviour of the normal build for the NoCrash keys (one process per case: own stderr file)
+    nocrash = [(pn, confirmed[pn][1]) for pn, pl in enumerate(plan) if pn in confirmed and pl["why"] == "NoCrash"]
+    notes = {}
+    if nocrash:
+        ws = [dict(wire(c), id="k%d" % pn) for pn, c in nocrash]
+        stack(big)
+        try:
+            vlib.run_driver("front", ws, wdir, kind="asan", timeout_s=60, jobs=len(ws), tag="c10kind")
+        finally:
+            stack(default_stack)
+        evr = vlib.events_by_case(vlib.run_driver("front", ws, wdir, kind="rel", timeout_s=60, jobs=len(ws), tag="c10rel"))
+        for n, (pn, c) in enumerate(nocrash):
+            errkind = asan_kind(os.path.join(wdir, "c10kind.%d.out.ndjson.stderr" % n))
+            relcrash = [e for e in evr.get("k%d" % pn, []) if e["e"] == "Crash"]
+            notes[pn] = " sanitizer: %s; normal build: %s" % (errkind or "?", relcrash[0].get("why") if relcrash else "no crash")
+            if "stack-overflow" in errkind and not relcrash:
+                rep.notes.append("%s: stack overflow only in the sanitizer build (%s) - not counted" % (plan[pn]["key"], show(c["text"], 60)))
+                del confirmed[pn]
+    for pn, pl in enumerate(plan):
+        if pn not in confirmed:
             continue
-        b, c, b2, ex2, note = confirmed
+        b, c, b2, evs2 = confirmed[pn]
+        why, fe, key = pl["why"], pl["fe"], pl["key"]
         dev = b2[0].get("dev", "")
-        info = ("no return within %d ms" % c.get("budget_ms", 0)) if why == "Terminates" else ("family " + b2[0].get("info", "")) if why == "TimeProportional" else b2[0].get("info", "")
+        if why == "Terminates":
+            info = "no return within %d ms" % c.get("budget_ms", 0)
+        elif why == "TimeProportional":
+            sc = evs2[0]
+            info = "family %s: %d bytes in %d ms, %d bytes in %d ms (normal build, faster of two measurements)" % (sc["fam"], sc["n1"], sc["ms1"], sc["n2"], sc["ms2"])
+        else:
+            info = b2[0].get("info", "")
         what = "%s violated by %s on %s [%s]: %s%s; front ends affected: %s; %d cases%s" % (
-            why, fe, show(c["text"]), cls, info, note, ",".join(fes), len(bs), ("; explained by the named deviation %s of Lex.tla" % dev) if dev else "")
-        robj = {"property": "C10", "key": key, "case": {k: v for k, v in c.items() if k not in ("origin", "scale")}, "origin": c.get("origin", c["kind"]),
-                "observed": ex2[0][2], "verdict": b2}
+            why, fe, show(c["text"]), pl["cls"], info, notes.get(pn, ""), ",".join(pl["fes"]), len(pl["bs"]),
+            ("; explained by the named deviation %s of Lex.tla" % dev) if dev else "")
+        robj = {"property": "C10", "key": key, "case": {k: v for k, v in c.items() if k not in ("origin", "scale", "_cls")}, "origin": c.get("origin", c["kind"]),
+                "observed": evs2, "verdict": b2}
         if why == "TimeProportional":
             robj["family_index"] = int(c["scale"]["id"][5:])
             robj["case"]["text"] = show(c["text"], 200)
         rep.finding(key, what, robj)
-        rep.found[key]["count"] += len(bs) - 1
+        rep.found[key]["count"] += len(pl["bs"]) - 1
     phase("classified")
